@@ -196,4 +196,24 @@ Section CP.
     destruct (IH _ Hn A2) as [R S']. split; [|exact S']. split; [|exact R].
     simpl. intro E. subst acc. unfold run1. simpl. destruct (reject_one s acts Hs A1) as (B1 & _ & B3). split; assumption.
   Qed.
+
+  (* ---- the particle counter: initial value + accepted insertions - accepted deletions *)
+  Definition act_delta (a : act P O) : Z := match a with Move _ => 0 | Insert _ => 1 | Delete _ dp => - dp end%Z.
+  Definition trial_delta (acts : list (act P O)) : Z := fold_right (fun a z => (act_delta a + z)%Z) 0%Z acts.
+  Lemma apply_trial_pdelta acts : forall s : cstate, pdelta (apply_trial dP dO acts s) = (pdelta s + trial_delta acts)%Z /\ nexch (apply_trial dP dO acts s) = nexch s.
+  Proof.
+    induction acts as [|a acts IH]; intro s; [unfold apply_trial, trial_delta; simpl; split; [now rewrite Z.add_0_r|reflexivity]|].
+    destruct (IH (apply_act dP dO s a)) as [A B]. unfold apply_trial in *. cbn [fold_left map]. rewrite A, B.
+    unfold trial_delta. cbn [fold_right]. fold (trial_delta acts). destruct a; cbn [apply_act pdelta nexch act_delta]; split; try reflexivity; lia.
+  Qed.
+  Fixpoint accepted_delta (hist : list (list (act P O) * bool)) : Z :=
+    match hist with [] => 0 | tr :: h => ((if snd tr then trial_delta (fst tr) else 0) + accepted_delta h) end%Z.
+  Theorem counter_history hist : forall s : cstate, pdelta s = 0%Z ->
+    nexch (fold_left run1 hist s) = (nexch s + accepted_delta hist)%Z /\ pdelta (fold_left run1 hist s) = 0%Z.
+  Proof.
+    induction hist as [|[acts acc] h IH]; intros s Hp; simpl; [split; [lia|exact Hp]|].
+    destruct (apply_trial_pdelta acts s) as [A B].
+    assert (pdelta (run1 s (acts, acc)) = 0%Z) as Hz by (unfold run1; simpl; destruct acc; reflexivity).
+    destruct (IH _ Hz) as [C D]. split; [|exact D]. rewrite C. unfold run1. simpl. destruct acc; simpl; [rewrite A, B, Hp|rewrite B]; lia.
+  Qed.
 End CP.
